@@ -1,16 +1,80 @@
-import Eru.CpuMem.Spec
+import Eru.CpuMem.ProofsSpec
 /-
 C06 — CPU planning always terminates without crashing.
+In the model a Go panic is `.panic`, a loop without a decreasing measure is `.diverge`; the theorems
+say neither is reachable.  Termination measures: `Σ pieces` of the cores in the heap / affinity
+list strictly decreases per round (fuel `Σ pieces + 1` suffices, `heapLoop_spec`, `affinityLoop_spec`);
+the full→fragment conversion loop is structural on the list of full cores.
 -/
 namespace Eru.Props.C06
 open Eru Eru.CpuMem
+
+abbrev WF (info : NodeInfo) : Prop := info.cap.cpuMap.keys.Nodup ∧ (info.cap.numa.map (·.1)).Nodup
+
+def exampleNode : NodeInfo :=
+  { cap := { cpuMap := [("0",100),("1",100),("2",250)], mem := 100 }, use := { cpuMap := [("0",50),("1",50),("2",251)], mem := 40 } }
+example : WF exampleNode ∧ ([] : List String).Nodup := by decide
+
+/-- **getCPUPlans_total**: for every node (valid or not — only distinct map keys are assumed), every
+    CPU request (including requests below one piece), every memory request, every share base ≥ 1,
+    every max-share value (−1, positive, even 0 or negative), every affinity map and NUMA visiting
+    order, `GetCPUPlans` returns a plan list: no panic, no divergence, no error. -/
+theorem getCPUPlans_total (info : NodeInfo) (origin : CpuMap) (B maxShare : Int) (req : Req)
+    (order : List String) (hB : 1 ≤ B) (hwf : WF info) (hord : order.Nodup) :
+    ∃ ps, getCPUPlans info origin B maxShare req order = .ok ps := by
+  obtain ⟨ps, h, _⟩ := getCPUPlans_spec info origin B hB maxShare req order hord hwf.2 hwf.1
+  exact ⟨ps, h⟩
+
+/-- host level: `host.getCPUPlans` returns for every request and max-share on a well-formed host -/
+theorem hostPlans_total (B maxShare : Int) (aff : Bool) (h : Host) (pieces : Int) (hB : 1 ≤ B) (hh : HostOK B h) :
+    ∃ plans, hostPlans B maxShare aff h pieces = .ok plans := by
+  obtain ⟨plans, hp, _⟩ := hostPlans_spec B hB maxShare aff h hh pieces
+  exact ⟨plans, hp⟩
 
 /-- D4: a request below one piece has no plan (before the repair: `.diverge`, `.panic` with affinity) -/
 theorem zero_pieces_no_plans (B maxShare : Int) (aff : Bool) (h : Host) (pieces : Int) (hp : pieces ≤ 0) :
     hostPlans B maxShare aff h pieces = .ok [] := by
   unfold hostPlans; simp [hp]
 
+/-- **calculateDeploy_no_crash**: `CalculateDeploy` (count ≥ 0) ends with a result or an error value -/
+theorem calculateDeploy_no_crash (info : NodeInfo) (B maxShare count : Int) (raw : RawReq) (order : List String)
+    (hB : 1 ≤ B) (hwf : WF info) (hord : order.Nodup) (hc : 0 ≤ count) :
+    (∃ ws, calculateDeploy info B maxShare count raw order = .ok ws) ∨
+    (∃ e, calculateDeploy info B maxShare count raw order = .err e) := by
+  unfold calculateDeploy
+  have hv : (∃ w, raw.validate = .ok w) ∨ (∃ e, raw.validate = .err e) := by
+    unfold RawReq.validate
+    split
+    · right; exact ⟨_, rfl⟩
+    · split
+      · right; exact ⟨_, rfl⟩
+      · split
+        · right; exact ⟨_, rfl⟩
+        · left; exact ⟨_, rfl⟩
+  rcases hv with ⟨w, hw⟩ | ⟨e, he⟩
+  · rw [hw]
+    simp only []
+    split
+    · unfold allocByCPU
+      obtain ⟨ps, hps⟩ := getCPUPlans_total info [] B maxShare w.toReq order hB hwf hord
+      rw [hps]
+      simp only []
+      split
+      · right; exact ⟨_, rfl⟩
+      · rw [if_neg (by omega)]; left; exact ⟨_, rfl⟩
+    · unfold allocByMemory
+      split
+      · right; exact ⟨_, rfl⟩
+      · split
+        · right; exact ⟨_, rfl⟩
+        · left; exact ⟨_, rfl⟩
+  · rw [he]; right; exact ⟨_, rfl⟩
+
 example : getCPUPlans { cap := { cpuMap := [("0",100),("1",100)], mem := 1000 }, use := {} } [("0",100)] 100 (-1)
     { bind := true, cpuNum := 1, mem := 0 } [] = .ok [] := by decide
+
+/-- D5 witness: max-share 1 with two half-used cores and request 0.3 — plans instead of a panic -/
+example : (getCPUPlans { cap := { cpuMap := [("0",100),("1",100)], mem := 1000 }, use := { cpuMap := [("0",50),("1",50)] } } [] 100 1
+    { bind := true, cpuNum := 300, mem := 0 } []).isOk = true := by decide
 
 end Eru.Props.C06
